@@ -80,6 +80,15 @@ def run_check(pid, prop, tier, seed):
     if not okh:
         return finish(pid, ev, t0, fatal="harness/zkryptium does not build from /repo's working tree:\n" + outh[-1500:])
     okm, outm = C.build_model()
+    if not okm and "Generated/" in outm:
+        # the constants regenerated from the source do not fit the model any more: the tie is broken.  The search for a failing input goes
+        # on with the constants as committed (what the source said when the theorems were last checked against it)
+        broken.append("constants regenerated from the source no longer compile with the model: " + outm.strip()[-300:])
+        cov["discharged"] = 0
+        for gf in ("Consts.v", "ClConsts.v"):
+            rc_, txt = C.sh(["git", "-C", C.VERIF, "show", "HEAD:coq/Generated/" + gf])
+            if rc_ == 0: open(os.path.join(C.COQ, "Generated", gf), "w").write(txt)
+        okm, outm = C.build_model()
     if not okm:
         return finish(pid, ev, t0, fatal="model extraction/driver build failed:\n" + outm[-1500:])
     # ---- 3. cases: corpus first, then generated
